@@ -141,9 +141,10 @@ def canon(text: str) -> str:
 # ---------------------------------------------------------------- programs
 
 # Malformed tags (parser errors, raised where they stand). From N_IMMEDIATE on: unclosed
-# blocks, which the generator only puts last in a body.
+# blocks, which the generator only puts last in a body (none of them can be closed by the end
+# tag of an enclosing capture / macro / block body).
 BROKEN = ["{% endfor %}", "{% assign %}", "{% if %}a{% endif %}", "{% for x %}{% endfor %}", "{% nosuchtag %}",
-          "{% cycle %}", "{% increment %}", "{% include %}", "{% capture q %}", "{% if x %}", "{% for v in x %}"]
+          "{% cycle %}", "{% increment %}", "{% include %}", "{% unless x %}", "{% if x %}", "{% for v in x %}"]
 N_IMMEDIATE = 8
 
 TAGS = ["increment", "decrement", "cycle", "for", "assign", "capture", "macro", "call",
